@@ -4,6 +4,7 @@ mod imp;
 mod model;
 mod oracles;
 mod prog;
+mod realpage;
 mod refint;
 mod rng;
 mod slices;
